@@ -255,6 +255,49 @@ fn c05_custom_equal_length_names() {
     std::mem::forget(strat);
 }
 
+/// two-digit array index: key "[10]", path = any 6 bytes over {[,0,1,],.,a}
+#[kani::proof]
+#[kani::unwind(8)]
+fn c05_custom_two_digit_index_key() {
+    let s = sym_str::<6>(b'.', b'a');
+    let b = s.as_bytes();
+    let mut i = 0;
+    while i < 6 {
+        kani::assume(b[i] == b'[' || b[i] == b'0' || b[i] == b'1' || b[i] == b']' || b[i] == b'.' || b[i] == b'a');
+        i += 1;
+    }
+    let (b0, b1, b2, b3, b4, b5) = (b[0], b[1], b[2], b[3], b[4], b[5]);
+    let mut paths: Vec<&str> = Vec::with_capacity(1);
+    paths.push(s.as_str());
+    let strat = Strat::Custom(paths);
+    let next = strat.next_level("[10]");
+    let is_prefix = b0 == b'[' && b1 == b'1' && b2 == b'0' && b3 == b']';
+    match &next {
+        Strat::Custom(v) => {
+            if is_prefix && b4 == b'.' {
+                assert!(v.len() == 1 && v[0].len() == 1 && v[0].as_bytes()[0] == b5, "C05.j1 `[10].x` continues below element 10 as `x`");
+            } else if is_prefix && b4 == b'[' {
+                assert!(v.len() == 1 && v[0].len() == 2 && v[0].as_bytes()[0] == b'[' && v[0].as_bytes()[1] == b5, "C05.j2 `[10][..` continues below element 10 from the `[`");
+            } else {
+                assert!(v.is_empty(), "C05.j3 a path for another element has no effect below element 10");
+            }
+            kani::cover!(v.len() == 1, "continues");
+        }
+        _ => assert!(false, "C05.j4 Custom stays Custom"),
+    }
+    // and the element itself: a 4-byte path designates element 10 iff it is exactly "[10]"
+    let t = sym_str::<4>(b'0', b']');
+    let tb = t.as_bytes();
+    let is_10 = tb[0] == b'[' && tb[1] == b'1' && tb[2] == b'0' && tb[3] == b']';
+    let mut p2: Vec<&str> = Vec::with_capacity(1);
+    p2.push(t.as_str());
+    let strat2 = Strat::Custom(p2);
+    assert!(strat2.sd_for_key("[10]") == is_10, "C05.j5 element 10 is designated iff a path equals [10]");
+    kani::cover!(is_10, "element 10 designated");
+    kani::cover!(true, "end");
+    std::mem::forget(next); std::mem::forget(strat); std::mem::forget(strat2);
+}
+
 // ---------------------------------------------------------------------------------------------
 // marking at one level: create_sd_claims_object on {"a":1,"b":2} with SDJWTDisclosure::new replaced
 // by the disclosure hook. The path is concrete per harness (a symbolic path makes the two marking
@@ -367,4 +410,33 @@ fn c05_mark_two_paths_in_any_order() {
     assert!(sd.len() == 2, "C05.p5 every issued disclosure is referenced by exactly one digest");
     kani::cover!(true, "end");
     std::mem::forget(out); std::mem::forget(iss); std::mem::forget(claims);
+}
+
+/// arrays: create_sd_claims_list marks BY POSITION — [1, 1] under Custom(["[1]"]): element 1 is replaced
+/// by a placeholder {"...": digest}, element 0 (equal value!) stays in clear
+#[kani::proof]
+#[kani::unwind(4)]
+// (no fmt stub here: create_sd_claims_list builds its keys with format!("[{idx}]"))
+fn c05_list_marks_by_position() {
+    ho::hash_on(2, b'd');
+    ho::disclosure_on();
+    let mut iss = mk_issuer();
+    let mut list: Vec<JValue> = Vec::with_capacity(2);
+    list.push(jnum(1));
+    list.push(jnum(1));
+    let mut paths: Vec<&str> = Vec::with_capacity(1);
+    paths.push("[1]");
+    let out = iss.create_sd_claims_list(&list, Strat::Custom(paths));
+    let a = match &out { JValue::Array(a) => a, _ => { assert!(false, "C05.l0 array stays array"); return; } };
+    assert!(a.len() == 2, "C05.l1 an array keeps its length; hidden elements are replaced in place");
+    assert!(a[0] == jnum(1), "C05.l2 the undesignated element stays in clear");
+    let ph = match &a[1] { JValue::Object(o) => o, _ => { assert!(false, "C05.l3 the designated element becomes a placeholder object"); return; } };
+    #[allow(static_mut_refs)]
+    unsafe {
+        assert!(iss.all_disclosures.len() == 1 && ho::DISC_HASHES.len() == 1, "C05.l4 exactly one disclosure for the one designated element");
+        assert!(ph.len() == 1 && ph.get("...").and_then(|d| d.as_str()).map(|d| streq(d, &ho::DISC_HASHES[0])).unwrap_or(false), "C05.l5 the placeholder holds the digest of that disclosure");
+        assert!(ho::DISC_NAMES[0].is_none() && ho::DISC_VALUES[0] == jnum(1), "C05.l6 an array-element disclosure has no name and carries the element");
+    }
+    kani::cover!(true, "end");
+    std::mem::forget(out); std::mem::forget(iss); std::mem::forget(list);
 }
